@@ -18,7 +18,8 @@ PROBES = {'C17': 40}
 ANCHORS = ['penman.layout:node_contexts', 'penman.layout:appears_inverted',
            'penman.layout:get_pushed_variable']
 MIN_EVAL = {'quick': 3000, 'thorough': 100000}
-REQUIRED_COUNTERS = ['wf_trees', 'feature:inverted-reentrancy', 'feature:conceptless-with-edges']
+REQUIRED_COUNTERS = ['wf_trees', 'feature:inverted-reentrancy', 'feature:conceptless-with-edges',
+                     'requeried_after_twin']
 MODELS_RANDOM = ['default', 'amr', 'mini', 'default', 'amr', 'noop'] + [f'rand{i}' for i in range(6)]
 
 
@@ -79,6 +80,11 @@ def oracle(ctx, kind, p):
         g = _trees.c14(ctx, node, mname)
         if g is not None:
             _trees.c14_markerless(ctx, g, ctx.current)
+            if p['i'] % 2 == 0:
+                # same triples and top, other markers, asked in between: the answers for the
+                # decoded graph must not change
+                _trees.c14(ctx, node, mname)
+                ctx.count('requeried_after_twin')
         f = T.features(node, rm)
         ctx.case(ctx.current, len(T.nodes(node)) >= 2)
         ctx.count('wf_trees')
